@@ -58,6 +58,20 @@ CLAIMED.update({
    text="Every comparison site x corruption kind (bit flips, random, the other nonce, zero), fingerprint lists, encrypted-answer corruptions, wrong new_nonce_hash1 and alternative constructors are injected one at a time; the exchange must end in an error, persist nothing and send no encrypted frame.",
    note="trusted: refserver; a watchdog firing without the stall signature is inconclusive, not a violation", ref="6/C07"),
 })
+CLAIMED.update({
+ "C09": dict(level="exploration", technique="end-to-end trace monitoring with unique request ids: real client vs scriptable reference server (shuffled, containerised, gzip-packed answers), PRNG delays at hook points, Go race detector (E1 escalation), child process",
+   text="Concurrent callers issue requests of five result kinds; the server answers in scripted order and wrapping; every request carries a unique uid and every answer a stamp f(uid), so each return identifies the request it answered without search; oracle: exactly one return per call, own stamp or own rpc_error, no duplicates, no panic, no stall. Distinct hook-order signatures are reported as the measure of interleavings seen.",
+   note="trusted: refserver, hook points only delay at existing suspension points; only executions produced are judged", ref="6/C09"),
+ "C10": dict(level="exploration", technique="online trace checking at the server side of the socket (arrival-order monitor of msg_id/seq_no rules, ack set equality at quiescence), steering gate at the msg_id hook, injected clocks (H4), race detector with E1/E2 escalations",
+   text="The reference server's log of decrypted client messages is checked in arrival order; bursts of goroutines are held right after obtaining their msg_id and released newest-first to provoke inversions; clocks are frozen, stepped back and coarsened; server histories of every dispatch class check that each content-related message is acknowledged.",
+   note="trusted: refserver, H3/H4 hooks; gate patience is bounded so steering can fail but never wedge the client", ref="6/C10"),
+ "C11": dict(level="exploration", technique="scripted history exploration (accepted-before/answered-after vs rejected requests across k salt rotations) with exactly-once accounting per request uid, session-store inspection, goroutine-dump stall detector",
+   text="Histories of 1-3 rotations with every small (A,R) split, resumed and freshly keyed sessions, rotation by rejection or by new_session_created; the server rejects any message under a wrong salt; oracle: arrivals(uid) = 1 + rejections(uid), every call gets its own answer, the store holds the new salt, a probe completes, no stall.",
+   note="trusted: refserver; stall verdicts only from the logical signature (identical dumps, all parked)", ref="6/C11"),
+ "C16": dict(level="fault_enumeration", technique="fault/injection enumeration over a catalogue of server-to-client messages against the real receive loop in a child process (exit status, stderr, goroutine dumps observed by the parent), reconnect observed through the reconnect.done hook and the server's connection log",
+   text="About 70 catalogue items singly and in PRNG sequences, with/without a custom handler, each followed by a probe RPC; the child must stay alive, the probe must return its own answer, a close must lead to a reconnect without plaintext frames.",
+   note="trusted: refserver; harness drains the warning channel", ref="6/C16"),
+})
 NOT_YET = {}
 
 def main():
